@@ -980,6 +980,15 @@ func c04History(r *RunCtx, p *PRNG, k int) error {
 			}
 		}
 	}
+	// the same merkle posted twice in one block by one creator, the second time much larger: the replacement is a
+	// new one-time payment and must be charged its own price
+	if e.Height > 0 {
+		for _, sz := range []int64{1000, 900_000_000, 5_000_000} {
+			if err := w.post(c04Post{Creator: 2, Size: sz, MaxProofs: 3, Expires: e.Height + 14_400*400, Note: "{}", Merkle: "repost"}); err != nil {
+				return err
+			}
+		}
+	}
 	nops := 14 + p.Intn(r.Scale(10, 26))
 	ratios := [][2]int64{{25, 40}, {25, 40}, {0, 0}, {100, 0}, {0, 100}, {50, 50}, {10, 10}, {33, 33}, {25, 5}, {25, 9}, {25, 10}, {1, 99}, {60, 50}, {7, 13}, {3, 4}}
 	var last *c04Buy
